@@ -28,6 +28,10 @@ TRUSTED = [
     "statement of the theorems in Props/C01.lean and of the textbook definitions and the console reader in Spec/Runner.lean",
 ]
 ASSUMPTIONS = [
+    "-p (every test in a forked child): the child's counters are lost by design, so the parent's summary counts one failure per "
+    "child that recorded any failing event and no checks for tests run in children; 'recorded and printed exactly once' means "
+    "there: the child prints every failing event once, the parent adds one 'Failed in separate process' record per failed "
+    "child (theorem recorded_once_with_separate_process); children killed by signals are property C11's",
     "rethrow mode off (-e / UtestShell::setRethrowExceptions(false)) for the property itself; rethrow mode is modelled up to "
     "'the exception leaves runAllTests' (theorem rethrow_propagates, observed by the harness catching it around runAllTestsMain)",
     "size_t counters do not wrap; the runner's return value is exact only below 2^32 accumulated failures (int cast) — "
@@ -157,8 +161,8 @@ class Gen:
         return fails
 
 
-def cfg_line(rng, repeat=None, verbosity=None, run_ignored=None, rethrow=None):
-    """cfg <repeat form> <verbosity: bit0 -v, bit1 -vv> <-ri> <-c> <rethrow mode (no -e)>"""
+def cfg_line(rng, repeat=None, verbosity=None, run_ignored=None, rethrow=None, separate=None):
+    """cfg <repeat form> <verbosity: bit0 -v, bit1 -vv> <-ri> <-c> <rethrow mode (no -e)> <-p>"""
     rep = repeat or rng.choice(["none"] * 8 + ["bare", "a1", "a2", "a2", "a3", "s2", "s3", "a0", "s1"])
     if verbosity is None:
         verbosity = rng.choice([0] * 11 + [1] * 4 + [2] * 3 + [3] * 2)
@@ -166,7 +170,12 @@ def cfg_line(rng, repeat=None, verbosity=None, run_ignored=None, rethrow=None):
         run_ignored = rng.random() < 0.15
     if rethrow is None:
         rethrow = rng.random() < 0.12
-    return "cfg %s %d %d %d %d" % (rep, verbosity, 1 if run_ignored else 0, 1 if rng.random() < 0.2 else 0, 1 if rethrow else 0)
+    if separate is None:
+        separate = rng.random() < 0.18
+    if rethrow:
+        separate = False        # an exception that leaves a forked child is outside the model
+    return "cfg %s %d %d %d %d %d" % (rep, verbosity, 1 if run_ignored else 0, 1 if rng.random() < 0.2 else 0,
+                                      1 if rethrow else 0, 1 if separate else 0)
 
 
 def clock_line(rng):
@@ -226,6 +235,30 @@ def gen_ignored_case(rng, throw_free=False):
         else:
             g.test(ops, g.random_fails(0.4), ignored=False, group="g1" if shape == "mixed" else rng.choice(["g1", "g2"]),
                    name=rng.choice(NAMES))
+    ops.append("run")
+    return ops
+
+
+def gen_separate_case(rng, throw_free=False):
+    """-p: every test in a forked child.  Tests whose only failing event is reported by a plugin (pre or post
+    action), tests without any failure, and tests failing in every way, side by side"""
+    g = Gen(rng, throw_free)
+    ops = [cfg_line(rng, rethrow=False, separate=True)]
+    if rng.random() < 0.4:
+        ops.append(clock_line(rng))
+    add_filters(rng, ops)
+    names = rng.sample(NAMES, 4)
+    for i in range(rng.randrange(1, 4)):
+        pname = "p%d" % (i + 1)
+        ops.append("plugin %s %d" % (pname, 0 if rng.random() < 0.1 else 1))
+        for _ in range(rng.choice([1, 1, 2])):
+            ops.append("perr %s %s %s %d %d" % (pname, rng.choice(["pre", "post", "post"]), rng.choice(names[:2]),
+                                                rng.randrange(4), rng.randrange(200)))
+    for _ in range(rng.randrange(1, 8)):
+        # names[0], names[1]: plugin errors apply; the phases themselves mostly pass there
+        name = rng.choice(names)
+        fails = g.random_fails(0.15 if name in names[:2] else 0.5)
+        g.test(ops, fails, ignored=rng.random() < 0.1, name=name)
     ops.append("run")
     return ops
 
@@ -300,7 +333,7 @@ def gen_malformed(rng):
             ops.append("test %s g1 n1 0 1 0" % rng.choice(pool))                                         # duplicate label
         elif x < 0.93:
             ops.append(rng.choice(["test t99 g1 n1 7 1 0", "filter zz a", "filter sg a-b", "plugin p1", "cfg x 0 0 0 0", "frob",
-                                   "clock 1 2", "clock 1 2 x", "cfg none 4 0 0 0", "cfg none 0 0 0"]))
+                                   "clock 1 2", "clock 1 2 x", "cfg none 4 0 0 0", "cfg none 0 0 0", "cfg none 0 0 0 1 1", "cfg none 0 0 0 0 2"]))
         else:
             ops.append("run")                                                                            # run more than once
     ops.append("run")
@@ -319,6 +352,8 @@ def stream(rng, tier, throw_free=False, scale=1.0):
     # nothing runs, something is ignored (and neighbours)
     for _ in range(int((120 if quick else 900) * scale)):
         out.append(("ignored", gen_ignored_case(rng, throw_free)))
+    for _ in range(int((120 if quick else 900) * scale)):
+        out.append(("separate", gen_separate_case(rng, throw_free)))
     if not throw_free:
         for _ in range(int((80 if quick else 600) * scale)):
             out.append(("rethrow", gen_rethrow_case(rng)))
@@ -403,8 +438,12 @@ def observe(r, rep, prefix=""):
                 rep.count(prefix + "with.colour")
             if w[6] == "1":
                 rep.count(prefix + "with.rethrow_mode")
+            if len(w) > 7 and w[7] == "1":
+                rep.count(prefix + "with.separate_process")
         elif l.startswith("> clock"):
             rep.count(prefix + "with.scripted_clock")
+        elif l == "t 4661696c656420696e2073657061726174652070726f63657373":
+            rep.count(prefix + "branch.failed_in_separate_process")
         elif l.startswith("propagated "):
             rep.count(prefix + "branch.exception_left_the_run")
     if best >= 11:
